@@ -9,10 +9,10 @@ use serde::{Deserialize, Serialize};
 
 /// a colour as raw f32 bit patterns (colour components in array order, alpha last); 5 words, the
 /// interpreter uses the first K
-type Col = [u32; 5];
+pub type Col = [u32; 5];
 
 #[derive(Debug, Clone, Serialize, Deserialize, PartialEq)]
-enum R {
+pub enum R {
     Full,
     To(usize),
     ToIncl(usize),
@@ -22,7 +22,7 @@ enum R {
 }
 
 #[derive(Debug, Clone, Serialize, Deserialize)]
-enum Op {
+pub enum Op {
     Push(Col),
     Pop,
     Extend(Vec<Col>),
@@ -47,10 +47,10 @@ enum Op {
 }
 
 #[derive(Debug, Clone, Serialize, Deserialize)]
-struct Program {
-    ty: usize,
-    init: Vec<Col>,
-    ops: Vec<Op>,
+pub struct Program {
+    pub ty: usize,
+    pub init: Vec<Col>,
+    pub ops: Vec<Op>,
 }
 
 fn model_range(r: &R, len: usize) -> Option<std::ops::Range<usize>> {
@@ -394,7 +394,7 @@ soa_impl!(run_oklaba, "Oklaba<Vec<f32>>", 4, Alpha<Oklab<Vec<f32>>, Vec<f32>>, A
 
 const RUNNERS: [fn(&Program, &mut Obs) -> PropResult; 10] = [run_rgb, run_rgba, run_luma, run_lumaa, run_hsv, run_hsva, run_lch, run_lcha, run_oklab, run_oklaba];
 
-fn run(p: &Program, obs: &mut Obs) -> PropResult {
+pub fn run(p: &Program, obs: &mut Obs) -> PropResult {
     for op in &p.ops {
         obs.class(match op {
             Op::Push(_) => "push",
@@ -457,16 +457,19 @@ fn main() {
     let mut h = Harness::new("C18");
     h.rule("generated programs = initial collection (0..8 colours) + up to 40 (thorough 200) operations from {push, pop, extend, collect, clear, with_capacity, drain(range) consumed by a generated next/next_back script and then dropped or mem::forget-ten, get(index|range), get_mut(index|range)+write, iter with interleaved next/next_back and len/size_hint at every step, iter().rev(), iter_mut(+write, also reversed), owned into_iter, slice/boxed-slice/array views} with ranges of all six kinds incl. empty, reversed, out-of-range and usize::MAX ends; 10 collection types (Rgb, Luma, Hsv [hue first], Lch [hue last], Oklab [no phantom], each bare and Alpha) with f32 bit patterns incl. NaN. Oracle: a Vec of colours subjected to the same operations: after every step all component collections (hue and alpha included) have the model's length and the contents match bitwise in order; return values, yielded sequences, lengths, size hints match; an operation panics iff the Vec operation panics and the state is unchanged then. Non-trivial = at least 3 distinct operation kinds including a drain or an out-of-range access on a non-empty collection; distinct by hash.");
     h.assume("reference model = Vec<colour bits>; debug assertions of the crate are off in this (release) build, so disagreements surface through the model comparison");
-    let maxops = if h.is_thorough() { 200 } else { 40 };
-    let n = h.n(1_500_000, 20_000_000);
+    let miri = std::env::var("PV_MIRI").is_ok();
+    let maxops = if miri { 30 } else if h.is_thorough() { 200 } else { 40 };
+    let n = if miri { 200 } else { h.n(1_500_000, 20_000_000) };
     h.prop(
         "programs",
         n,
         move || (0usize..10, proptest::collection::vec(col(), 0..8), proptest::collection::vec(op(), 0..maxops)).prop_map(|(ty, init, ops)| Program { ty, init, ops }),
         run,
     );
-    for c in ["drain(inclusive)", "drain+forget", "iter().rev()", "iter_mut().rev()+write", "get(range)", "views"] {
-        h.require_class("programs", c, 1000);
+    if !miri {
+        for c in ["drain(inclusive)", "drain+forget", "iter().rev()", "iter_mut().rev()+write", "get(range)", "views"] {
+            h.require_class("programs", c, 1000);
+        }
     }
     h.finish();
 }
